@@ -32,16 +32,15 @@ contract(PT + ".dejitter", serves=["C14", "C05", "C13"], spec_module="spec.adjus
 contract(IT + ".dejitter", serves=["C14", "C05", "C13"], spec_module="spec.tiers",
          inputs=lambda S, cfg: dict(self=wf_interval_tier(S, "self"), referenceTier=ref(S),
                                     maxDifference=S.real("maxDifference")),
-         # an empty reference is an error case of its own (min() of nothing: known finding KF17)
-         requires=["0 < maxDifference", "maxDifference <= 1e15", "len(referenceTier.timestamps) > 0"],
+         requires=["0 < maxDifference", "maxDifference <= 1e15"],
          loops={"loop#1": {"havoc": {"newEntries": "tuple3"}}},
-         frame=["self"], may_raise=["TextgridStateError"],
-         ensures=[("well-formed", "well_formed(result)"), ("count", "len(result.entries) == len(self.entries)")])
+         frame=["self"], may_raise=["TextgridStateError", "ArgumentError"],
+         ensures=[("well-formed", "well_formed(result)"), ("count", "len(result.entries) == len(self.entries)"),
+                  ("reference-not-empty", "len(referenceTier.timestamps) > 0")])
 
 contract(IT + ".morph", serves=["C14", "C05", "C13"], spec_module="spec.tiers",
          inputs=lambda S, cfg: dict(self=wf_interval_tier(S, "self"), targetTier=wf_interval_tier(S, "targetTier"),
                                     filterFunc=None),
-         requires=["len(self._entries) > 0"],
          loops={"loop#1": {"havoc": {"newEntryList": "Interval"}, "havoc_scalars": {"cumulativeAdjustAmount": "real"}}},
          frame=["self", "targetTier"], may_raise=["TextgridStateError", "SafeZipException"],
          ensures=[("well-formed", "well_formed(result)"), ("count", "len(result.entries) == len(self.entries)")])
